@@ -40,6 +40,8 @@ pub struct Launch {
     pub versions_via: Via,
     pub days: Option<i64>,
     pub days_via: Via,
+    /// started with RUST_LOG=info (what README and docker-compose recommend) instead of unset
+    pub log: bool,
 }
 
 impl Launch {
@@ -50,7 +52,7 @@ impl Launch {
             Via::Env => "env",
         };
         json!({"listen": self.listen, "listen_via": v(self.listen_via), "data_dir_via": v(self.data_via), "allow_list": self.allow, "allow_via": v(self.allow_via),
-               "snapshot_versions": self.versions, "versions_via": v(self.versions_via), "snapshot_days": self.days, "days_via": v(self.days_via)})
+               "snapshot_versions": self.versions, "versions_via": v(self.versions_via), "snapshot_days": self.days, "days_via": v(self.days_via), "rust_log_info": self.log})
     }
     pub fn from_json(j: &Value) -> Launch {
         let v = |x: &Value| match x.as_str().unwrap_or("flag") {
@@ -68,6 +70,7 @@ impl Launch {
             versions_via: v(&j["versions_via"]),
             days: j["snapshot_days"].as_i64(),
             days_via: v(&j["days_via"]),
+            log: j["rust_log_info"].as_bool().unwrap_or(false),
         }
     }
 }
@@ -103,6 +106,9 @@ pub fn http_raw(addr: &str, method: &str, path: &str, headers: &[(&str, String)]
     for (k, v) in headers {
         head.push_str(&format!("{k}: {v}\r\n"));
     }
+    // a server may answer (and close) before the whole body was written - a refusal decided
+    // from the headers alone: a failed body write is not the end, the answer is read regardless
+    let mut werr: Option<String> = None;
     match body {
         Some(b) if chunked => {
             head.push_str("Transfer-Encoding: chunked\r\n\r\n");
@@ -110,25 +116,38 @@ pub fn http_raw(addr: &str, method: &str, path: &str, headers: &[(&str, String)]
             // uneven pieces, written separately
             let mut pos = 0;
             let mut k = 1;
+            let mut w = |s: &mut TcpStream, bytes: &[u8]| {
+                if werr.is_none() {
+                    if let Err(e) = s.write_all(bytes) {
+                        werr = Some(e.to_string());
+                    }
+                }
+            };
             while pos < b.len() {
                 let n = (k * 7 % 53 + 1).min(b.len() - pos);
-                s.write_all(format!("{n:x}\r\n").as_bytes()).map_err(|e| e.to_string())?;
-                s.write_all(&b[pos..pos + n]).map_err(|e| e.to_string())?;
-                s.write_all(b"\r\n").map_err(|e| e.to_string())?;
+                w(&mut s, format!("{n:x}\r\n").as_bytes());
+                w(&mut s, &b[pos..pos + n]);
+                w(&mut s, b"\r\n");
                 s.flush().ok();
                 pos += n;
                 k += 1;
             }
-            s.write_all(b"0\r\n\r\n").map_err(|e| e.to_string())?;
+            w(&mut s, b"0\r\n\r\n");
         }
         Some(b) => {
             head.push_str(&format!("Content-Length: {}\r\n\r\n", b.len()));
             s.write_all(head.as_bytes()).map_err(|e| e.to_string())?;
             // body in two writes
             let mid = b.len() / 2;
-            s.write_all(&b[..mid]).map_err(|e| e.to_string())?;
+            if let Err(e) = s.write_all(&b[..mid]) {
+                werr = Some(e.to_string());
+            }
             s.flush().ok();
-            s.write_all(&b[mid..]).map_err(|e| e.to_string())?;
+            if werr.is_none() {
+                if let Err(e) = s.write_all(&b[mid..]) {
+                    werr = Some(e.to_string());
+                }
+            }
         }
         None => {
             head.push_str("\r\n");
@@ -137,8 +156,9 @@ pub fn http_raw(addr: &str, method: &str, path: &str, headers: &[(&str, String)]
     }
     s.flush().ok();
     let mut buf = vec![];
-    s.read_to_end(&mut buf).map_err(|e| format!("read: {e}"))?;
-    let sep = buf.windows(4).position(|w| w == b"\r\n\r\n").ok_or_else(|| format!("no header end in {} bytes", buf.len()))?;
+    // (a reset after a complete answer still leaves the answer in `buf`)
+    let rerr = s.read_to_end(&mut buf).err();
+    let sep = buf.windows(4).position(|w| w == b"\r\n\r\n").ok_or_else(|| format!("no header end in {} bytes (write error: {:?}, read error: {:?})", buf.len(), werr, rerr.map(|e| e.to_string())))?;
     let head = String::from_utf8_lossy(&buf[..sep]).to_string();
     let mut lines = head.split("\r\n");
     let status_line = lines.next().unwrap_or("");
@@ -189,6 +209,9 @@ fn start(l: &Launch, dir: &Path, addrs: &[String], ids: &Ids) -> Result<Running,
     let mut cmd = Command::new(server_binary());
     cmd.env_clear();
     cmd.env("PATH", std::env::var("PATH").unwrap_or_default());
+    if l.log {
+        cmd.env("RUST_LOG", "info");
+    }
     cmd.stdin(Stdio::null()).stdout(Stdio::null()).stderr(Stdio::null());
     // run from an empty working directory so nothing relative can end up elsewhere unnoticed
     cmd.current_dir(dir.parent().unwrap());
@@ -271,7 +294,7 @@ fn start(l: &Launch, dir: &Path, addrs: &[String], ids: &Ids) -> Result<Running,
 /// crash images through its start-up path). A start that ends at once is tried again on a fresh
 /// port before it counts (another process may have taken the port in between).
 pub fn start_plain(dir: &Path) -> Result<Running, String> {
-    let l = Launch { listen: vec!["v4".into()], listen_via: Via::Flag, data_via: Via::Flag, allow: 0, allow_via: Via::Flag, versions: None, versions_via: Via::Flag, days: None, days_via: Via::Flag };
+    let l = Launch { listen: vec!["v4".into()], listen_via: Via::Flag, data_via: Via::Flag, allow: 0, allow_via: Via::Flag, versions: None, versions_via: Via::Flag, days: None, days_via: Via::Flag, log: false };
     let mut last = String::new();
     for _ in 0..3 {
         let addr = format!("127.0.0.1:{}", free_port(false));
@@ -410,7 +433,33 @@ fn session_inner(l: &Launch, seed: u64) -> (Vec<(String, String)>, u64) {
         Err(e) => bad!("address-not-served", "AddSnapshot on {ad}: {e}"),
     }
     // versions since the snapshot: cross both version thresholds for small targets
+    // (between them another served client syncs too - first with a snapshot of its own, then
+    // with versions: the targets are applied to each client's own count)
+    let by_id = ids.clients[1];
+    let by_served = l.allow == 0 || l.allow >= 2;
+    let mut by_latest = Uuid::nil();
+    let mut bystander = |findings: &mut Vec<(String, String)>, nreq: &mut u64, addr: String, snapshot: bool| {
+        if !by_served {
+            return;
+        }
+        *nreq += 1;
+        match http(&addr, "POST", &format!("/v1/client/add-version/{by_latest}"), &[cid(by_id), ("Content-Type", HS_CT.to_string())], Some(b"bystander"), false) {
+            Ok(r) if r.status == 200 => {
+                if let Some(id) = r.header_str("X-Version-Id").and_then(|s| Uuid::parse_str(&s).ok()) {
+                    by_latest = id;
+                }
+            }
+            Ok(r) => findings.push(("listed-client-not-served".into(), format!("AddVersion of a second client on {addr} answered {}", r.status))),
+            Err(e) => findings.push(("address-not-served".into(), format!("AddVersion of a second client on {addr}: {e}"))),
+        }
+        if snapshot {
+            *nreq += 1;
+            let _ = http(&addr, "POST", &format!("/v1/client/add-snapshot/{by_latest}"), &[cid(by_id), ("Content-Type", SNAP_CT.to_string())], Some(b"bystander-snapshot"), false);
+        }
+    };
     for n in 1..=5 {
+        let ad = next_addr(&addrs);
+        bystander(&mut findings, &mut nreq, ad, n == 1);
         let ad = next_addr(&addrs);
         add_version(&mut findings, &mut nreq, &mut latest, &mut chain, &mut snap, ad, n % 2 == 0, n);
     }
@@ -562,7 +611,7 @@ fn session_inner(l: &Launch, seed: u64) -> (Vec<(String, String)>, u64) {
 
 /// The configuration product.
 pub fn launches(quick: bool) -> Vec<Launch> {
-    let base = Launch { listen: vec!["v4".into()], listen_via: Via::Flag, data_via: Via::Flag, allow: 0, allow_via: Via::Flag, versions: None, versions_via: Via::Flag, days: None, days_via: Via::Flag };
+    let base = Launch { listen: vec!["v4".into()], listen_via: Via::Flag, data_via: Via::Flag, allow: 0, allow_via: Via::Flag, versions: None, versions_via: Via::Flag, days: None, days_via: Via::Flag, log: false };
     let listens: Vec<Vec<String>> = vec![vec!["v4".into()], vec!["v4".into(), "v6".into()], vec!["v4".into(), "v4".into(), "v6".into()], vec!["localhost".into(), "v4".into()]];
     let mut out = vec![];
     if quick {
@@ -614,8 +663,11 @@ pub fn launches(quick: bool) -> Vec<Launch> {
         }
         // everything from the environment at once; everything by flag at once
         for via in [Via::Env, Via::Flag] {
-            out.push(Launch { listen: vec!["v4".into(), "v6".into()], listen_via: if via == Via::Env { Via::Env } else { Via::Flag }, data_via: via, allow: 2, allow_via: via, versions: Some(3), versions_via: via, days: Some(2), days_via: via });
+            out.push(Launch { listen: vec!["v4".into(), "v6".into()], listen_via: if via == Via::Env { Via::Env } else { Via::Flag }, data_via: via, allow: 2, allow_via: via, versions: Some(3), versions_via: via, days: Some(2), days_via: via, log: false });
         }
+        // every one of them again with RUST_LOG=info
+        let logged: Vec<Launch> = out.iter().map(|l| Launch { log: true, ..l.clone() }).collect();
+        out.extend(logged);
         return out;
     }
     for ls in &listens {
@@ -627,7 +679,7 @@ pub fn launches(quick: bool) -> Vec<Launch> {
                             for vvia in vvias {
                                 for (d, dvias) in [(None, vec![Via::Flag]), (Some(0i64), vec![Via::Flag, Via::Env]), (Some(2), vec![Via::Flag, Via::Env])] {
                                     for dv in dvias {
-                                        out.push(Launch { listen: ls.clone(), listen_via: lvia, data_via: dvia, allow, allow_via: avia, versions: v, versions_via: vvia, days: d, days_via: dv });
+                                        out.push(Launch { listen: ls.clone(), listen_via: lvia, data_via: dvia, allow, allow_via: avia, versions: v, versions_via: vvia, days: d, days_via: dv, log: out.len() % 2 == 1 });
                                     }
                                 }
                             }
@@ -713,7 +765,7 @@ pub fn wire_session(seed: u64) -> (Vec<(String, String)>, u64) {
     let mut nreq = 0u64;
     let scratch = Scratch::new("wire");
     let dir = scratch.path().join("data");
-    let l = Launch { listen: vec!["v4".into()], listen_via: Via::Flag, data_via: Via::Flag, allow: 0, allow_via: Via::Flag, versions: None, versions_via: Via::Flag, days: None, days_via: Via::Flag };
+    let l = Launch { listen: vec!["v4".into()], listen_via: Via::Flag, data_via: Via::Flag, allow: 0, allow_via: Via::Flag, versions: None, versions_via: Via::Flag, days: None, days_via: Via::Flag, log: true };
     let ids = Ids { clients: (0..3).map(|i| det_uuid(seed, 31, i)).collect() };
     let mut run = None;
     let mut addr = String::new();
@@ -784,6 +836,64 @@ pub fn wire_session(seed: u64) -> (Vec<(String, String)>, u64) {
                 Err(e) => findings.push((format!("wire-no-answer|{key}|{route}"), format!("{label}; {how}: the server stopped answering: {e}"))),
             }
         }
+    }
+    // ---- header grammar through the executable (started with RUST_LOG=info): every form of a
+    // bad client id on every route must be answered, and with a 4xx
+    let long = "x".repeat(300);
+    let ids_bad: Vec<(&str, Option<String>)> = vec![
+        ("absent", None),
+        ("empty", Some(String::new())),
+        ("one-char", Some("a".into())),
+        ("three-chars", Some("abc".into())),
+        ("braces-only", Some("{}".into())),
+        ("seven-chars", Some("1234567".into())),
+        ("eight-chars", Some("12345678".into())),
+        ("35-chars", Some(c.to_string()[..35].to_string())),
+        ("37-chars", Some(format!("{c}0"))),
+        ("non-hex", Some("zzzzzzzz-zzzz-zzzz-zzzz-zzzzzzzzzzzz".into())),
+        ("long", Some(long)),
+        ("two-byte-utf8", Some("\u{e9}\u{e9}\u{e9}".into())),
+    ];
+    let routes: Vec<(&str, String, Option<(&str, &[u8])>)> = vec![
+        ("GET", format!("/v1/client/get-child-version/{v1}"), None),
+        ("GET", "/v1/client/snapshot".to_string(), None),
+        ("POST", format!("/v1/client/add-version/{v1}"), Some((HS_CT, b"body"))),
+        ("POST", format!("/v1/client/add-snapshot/{v1}"), Some((SNAP_CT, b"body"))),
+    ];
+    for (name, val) in &ids_bad {
+        for (m, path, body) in &routes {
+            nreq += 1;
+            let mut hs: Vec<(&str, String)> = vec![];
+            if let Some(v) = val {
+                hs.push(("X-Client-Id", v.clone()));
+            }
+            if let Some((ct, _)) = body {
+                hs.push(("Content-Type", ct.to_string()));
+            }
+            // (a refusal decided from the headers may reset the connection while the body is
+            // still being written; a lost answer is asked for again, a server that never answers
+            // this request fails all three times)
+            let mut ans = http(&addr, m, path, &hs, body.map(|b| b.1), false);
+            for _ in 0..2 {
+                if ans.is_ok() {
+                    break;
+                }
+                nreq += 1;
+                ans = http(&addr, m, path, &hs, body.map(|b| b.1), false);
+            }
+            match ans {
+                Ok(r) if (400..500).contains(&r.status) => {}
+                Ok(r) => findings.push((format!("bad-client-id-not-4xx|{name}"), format!("{m} {path} with client id {name}: answered {}", r.status))),
+                Err(e) => findings.push((format!("bad-client-id-no-answer|{name}"), format!("{m} {path} with client id {name}: no HTTP answer at all ({e})"))),
+            }
+        }
+    }
+    // and the server is still there, unchanged
+    nreq += 1;
+    match http(&addr, "GET", &format!("/v1/client/get-child-version/{v1}"), &[("X-Client-Id", c.to_string())], None, false) {
+        Ok(r) if r.status == 404 => {}
+        Ok(r) => findings.push(("wire-state|after-header-grammar".into(), format!("after the bad-client-id requests GetChildVersion(latest) answered {}", r.status))),
+        Err(e) => findings.push(("wire-no-answer|after-header-grammar".into(), format!("after the bad-client-id requests the server stopped answering: {e}"))),
     }
     (findings, nreq)
 }
